@@ -77,6 +77,9 @@ func memories(t uint32, thorough bool) []uint32 {
 }
 
 func run(c *vf.Ctx) {
+	if runLaneScenarios(c) {
+		return
+	}
 	hasAsm, hasSSE4 := argon2.VerifC15HasAsm(), argon2.VerifC15CPUHasSSE41()
 	c.Set("assembly_built", hasAsm)
 	c.Set("cpu_has_sse4.1", hasSSE4)
